@@ -241,6 +241,18 @@ Proof.
     apply map_ext. intros a. symmetry. apply set_used_path.
 Qed.
 
+Lemma scan_steps_inv : forall root todo w acct net gap,
+  Inv root (ws_keys w) ->
+  Inv root (ws_keys (fst (scan_steps X derive w acct net gap todo))) /\
+  ws_cfg (fst (scan_steps X derive w acct net gap todo)) = ws_cfg w.
+Proof.
+  induction todo as [|[chg wt] r IH]; intros w acct net gap HI; simpl; [auto|].
+  pose proof (get_keys_inv root w (Some acct) chg (Some wt) (Some net) gap HI) as Hg.
+  destruct (lib_get_keys X derive w (Some acct) chg (Some wt) (Some net) gap) as [w1 r1].
+  simpl in Hg. destruct Hg as [HI1 C1]. destruct r1; simpl; [|auto].
+  destruct (IH w1 acct net gap HI1) as [A B]. split; [exact A | congruence].
+Qed.
+
 Lemma step_inv : forall root w o,
   Inv root (ws_keys w) ->
   Inv root (ws_keys (fst (step X derive w o))) /\ ws_cfg (fst (step X derive w o)) = ws_cfg w.
@@ -253,6 +265,7 @@ Proof.
   - apply kfp_inv; exact HI.
   - apply mark_used_inv; exact HI.
   - auto.
+  - unfold lib_scan. apply scan_steps_inv; exact HI.
 Qed.
 
 Lemma run_inv : forall root ops w,
